@@ -871,12 +871,11 @@ impl ModulePath {
         }
 
         // Relative path - resolve against base
-        let base_dir = base.and_then(|b| b.parent()).unwrap_or("");
-
-        let combined = if base_dir.is_empty() {
-            specifier.to_string()
-        } else {
-            format!("{}/{}", base_dir, specifier)
+        // Note: the parent of "/main.ts" is the root directory, i.e. Some(""),
+        // which must still yield an absolute path ("/./utils.ts" -> "/utils.ts").
+        let combined = match base.and_then(|b| b.parent()) {
+            Some(base_dir) => format!("{}/{}", base_dir, specifier),
+            None => specifier.to_string(),
         };
 
         ModulePath(Self::normalize_path(&combined))
